@@ -23,7 +23,7 @@ def apply_mutant(dst, m):
         p = os.path.join(dst, fn)
         s = open(p).read()
         if s.count(old) != 1:
-            raise SystemExit("mutant %s: pattern occurs %d times in %s" % (m["id"], s.count(old), fn))
+            raise ValueError("mutant %s: pattern occurs %d times in %s" % (m["id"], s.count(old), fn))
         open(p, "w").write(s.replace(old, new))
 
 
@@ -75,7 +75,11 @@ def main():
         dst = tempfile.mkdtemp(prefix="sens-%s-" % mid, dir="/tmp")
         try:
             subprocess.run("cd /repo && git ls-files -z | xargs -0 cp --parents -t %s" % dst, shell=True, check=True)
-            apply_mutant(dst, m)
+            try:
+                apply_mutant(dst, m)
+            except ValueError as ex:
+                print(ex)
+                continue
             env = dict(os.environ, GOFLAGS="-mod=mod", GOPROXY="off", GOSUMDB="off")
             b = subprocess.run(["go", "build", "./..."], cwd=dst, env=env, stdout=subprocess.PIPE, stderr=subprocess.STDOUT, text=True)
             if b.returncode != 0:
